@@ -2,6 +2,7 @@ package an
 
 import (
 	"fmt"
+	"go/token"
 	"go/types"
 	"regexp"
 	"sort"
@@ -434,23 +435,36 @@ func c20Options(p *Prog, r *Report) {
 		}
 		sm := f.Ev("call", "Socket.SendMsg")
 		okS := len(sm) == 1 && strings.HasPrefix(sm[0].Args[1], "mangos.NewMessage(len(recv.sendData))")
+		if !okS && len(sm) == 1 {
+			// the message may be built by a private helper: look at what it returns
+			if c := CallOf(sm[0].In); c != nil && len(c.Args) == 1 {
+				okS = strings.HasPrefix(p.ReturnDesc(c.Args[0]), "mangos.NewMessage(len(recv.sendData))")
+			}
+		}
 		r.Check(len(nmg) == 1 && okA && okS, R, nm+"/sends-all-data", f.Pos(), "NewMessage(len(data)); Body = append(Body, data...); SendMsg", nm+" does not send a fresh message holding all of the data")
 		if nm != "replyLoop" {
+			// the counter is whatever variable is decremented under (!= 0, != -1); the loop
+			// stops (return nil) exactly under counter == 0 — whether written as a switch
+			// (case -1 / case 0 / default) or as an if-chain
 			var stop Sel
-			for _, e := range f.Ev("return", "") {
-				if e.Args[0] == "nil" && hasAtom(e.Guard, "φcount == 0") && hasAtom(e.Guard, "φcount != -1") {
-					stop = append(stop, e)
-				}
-			}
 			dec := false
+			cnt := ""
 			EachInstr(f.fn, func(in ssa.Instruction) {
-				if bo, ok := in.(*ssa.BinOp); ok && Desc(bo) == "(φcount - 1)" {
-					gs := p.GuardStrings(bo)
-					if hasAtom(gs, "φcount != 0") && hasAtom(gs, "φcount != -1") {
-						dec = true
+				if bo, ok := in.(*ssa.BinOp); ok && bo.Op == token.SUB {
+					if k, isK := ConstInt(bo.Y); isK && k == 1 {
+						x := Desc(bo.X)
+						gs := p.GuardStrings(bo)
+						if hasAtom(gs, x+" != 0") && hasAtom(gs, x+" != -1") {
+							dec, cnt = true, x
+						}
 					}
 				}
 			})
+			for _, e := range f.Ev("return", "") {
+				if cnt != "" && e.Args[0] == "nil" && hasAtom(e.Guard, cnt+" == 0") {
+					stop = append(stop, e)
+				}
+			}
 			r.Check(len(stop) == 1 && dec, R, nm+"/count", f.Pos(), "stops at 0, decrements otherwise, -1 never stops", nm+" does not honour the requested count (stop at 0 / decrement / -1 unbounded)")
 		}
 	}
